@@ -10,6 +10,8 @@ NotImplemented) and int.  Every method logs (class, method, type(self), type(oth
 other operand's kind is in a generated set).
 """
 import re
+import time
+from concurrent.futures import ThreadPoolExecutor
 
 from vlib import cy, diff
 
@@ -17,7 +19,28 @@ from vlib import cy, diff
 ARITH = ['add', 'sub', 'mul', 'matmul', 'truediv', 'floordiv', 'mod', 'divmod', 'pow', 'lshift', 'rshift',
          'and', 'or', 'xor']
 NO_INPLACE = {'divmod'}
-HEADER = 'cimport cython\n\nlog = None\n\n'
+HEADER = '''cimport cython
+
+log = None
+
+def _h(tag, s, o, ni, ret, *mod):
+    # every generated special method is `return _h(...)`: log the call, then NotImplemented / tagged value
+    log((tag, type(s).__name__, type(o).__name__) + mod)
+    if type(o).__name__.split('_')[0] in ni:
+        return NotImplemented
+    if ret == 'tag':
+        return (tag,)
+    if ret == 'self':
+        return s
+    if ret == 'T':
+        return True
+    if ret == 'F':
+        return False
+    if ret == 'empty':
+        return ()
+    return None
+
+'''
 CMPS = ['lt', 'le', 'eq', 'ne', 'gt', 'ge']
 KINDS = ['A', 'B', 'C', 'E', 'int', 'U', 'N']
 OURS = ('A', 'B', 'C', 'E')
@@ -37,7 +60,7 @@ def _ns(M):
 def _fam(M, fam):
     ns = _ns(M)
     if fam not in ns:
-        d = {'log': M.log, '__name__': 'c28drv'}
+        d = {'log': M.log, '_h': M._h, '__name__': 'c28drv'}
         for k, v in M.__dict__.items():
             if k.endswith('_' + fam):
                 d[k] = v
@@ -103,18 +126,8 @@ def kind_of_expr(fam):
 
 def method_src(cls, fam, mname, ni, ret, pow3=False, indent='    '):
     args = 'self, other, mod' if pow3 else 'self, other'
-    lines = ['%sdef %s(%s):' % (indent, mname, args)]
-    b = indent + '    '
-    logx = "('%s.%s', type(self).__name__, type(other).__name__%s)" % (cls, mname, ', mod' if pow3 else '')
-    lines.append('%slog(%s)' % (b, logx))
-    if ni:
-        if len(ni) == len(KINDS):
-            lines.append('%sreturn NotImplemented' % b)
-            return '\n'.join(lines)
-        lines.append("%sif type(other).__name__.split('_')[0] in %r:" % (b, tuple(ni)))
-        lines.append('%s    return NotImplemented' % b)
-    lines.append('%sreturn %s' % (b, ret))
-    return '\n'.join(lines)
+    return '%sdef %s(%s):\n%s    return _h(%r, self, other, %r, %r%s)' % (
+        indent, mname, args, indent, cls + '.' + mname, tuple(ni), ret, ', mod' if pow3 else '')
 
 
 def arith_methods(opname):
@@ -136,7 +149,7 @@ def gen_arith_family(rng, opname, fam, a_subset, variant):
             if m.startswith('__i') and rng.random() < 0.5:
                 ret = 'self'
             else:
-                ret = "('%s.%s',)" % (cls, m)
+                ret = 'tag'
             # Python: __ipow__ takes (self, other) only up to 3.7 semantics; 3.8+ passes mod too -> keep 3 args for
             # __pow__/__rpow__, 2 for __ipow__ when called via **= ; the C slot is ternary, cdef classes need 3 args
             out.append(method_src(cls, fam, m, ni, ret, pow3=pow3 and m in ('__pow__', '__rpow__') and rng.random() < 0.75))
@@ -155,9 +168,9 @@ def gen_arith_family(rng, opname, fam, a_subset, variant):
         fam, fam, body('E_' + fam, e_subset).replace(', mod):', ', mod=None):'))
     u_ms = ms[:2]
     drv += 'class U_%s:\n%s\n\nclass N_%s:\n%s\n' % (
-        fam, '\n'.join(method_src('U_' + fam, fam, m, (), "('U.%s',)" % m, pow3=pow3).replace(', mod):', ', mod=None):')
+        fam, '\n'.join(method_src('U_' + fam, fam, m, (), 'tag', pow3=pow3).replace(', mod):', ', mod=None):')
                        for m in u_ms),
-        fam, '\n'.join(method_src('N_' + fam, fam, m, tuple(KINDS), 'None', pow3=pow3).replace(', mod):', ', mod=None):')
+        fam, '\n'.join(method_src('N_' + fam, fam, m, tuple(KINDS), 'tag', pow3=pow3).replace(', mod):', ', mod=None):')
                        for m in u_ms))
     meta = {'fam': fam, 'op': opname, 'A': [m for m in a_subset], 'B': b_subset, 'C': c_subset, 'E': e_subset}
     return pyx, drv, meta
@@ -170,7 +183,7 @@ def subsets(items):
     return out
 
 
-CMP_RETS = ['True', 'False', "('%s',)", '()']
+CMP_RETS = ['T', 'F', 'tag', 'empty']
 
 
 def gen_cmp_family(rng, fam, a_subset, a_total, variant):
@@ -181,8 +194,6 @@ def gen_cmp_family(rng, fam, a_subset, a_total, variant):
         for m in subset:
             ni = ni_expr(rng, KINDS)
             ret = rng.choice(CMP_RETS)
-            if '%s' in ret:
-                ret = ret % (cls + '.' + m)
             out.append(method_src(cls, fam, m, ni, ret))
         return '\n'.join(out) if out else '    pass'
 
@@ -201,8 +212,8 @@ def gen_cmp_family(rng, fam, a_subset, a_total, variant):
         fam, fam, body('C_' + fam, c_subset), fam, fam, body('E_' + fam, e_subset))
     u_ms = ms
     drv += 'class U_%s:\n%s\n\nclass N_%s:\n%s\n' % (
-        fam, '\n'.join(method_src('U_' + fam, fam, m, (), "('U.%s',)" % m) for m in u_ms),
-        fam, '\n'.join(method_src('N_' + fam, fam, m, tuple(KINDS), 'None') for m in u_ms))
+        fam, '\n'.join(method_src('U_' + fam, fam, m, (), 'tag') for m in u_ms),
+        fam, '\n'.join(method_src('N_' + fam, fam, m, tuple(KINDS), 'tag') for m in u_ms))
     meta = {'fam': fam, 'op': 'cmp', 'A': a_subset, 'B': b_subset, 'C': c_subset, 'E': e_subset,
             'A_total': a_total, 'B_total': b_total}
     return pyx, drv, meta
@@ -242,13 +253,13 @@ def resolve(meta, kind, method):
 
 
 def pairclass(lk, rk):
+    ours = [k for k in (lk, rk) if k in OURS]
+    py = any(k in ('C', 'E') for k in ours)
     if lk == rk:
-        return 'sametype'
-    if lk not in OURS or rk not in OURS:
-        return 'unrelated'
-    if lk in 'AB' and rk in 'AB':
-        return 'cdef-base+sub'
-    return 'pysubclass'
+        return 'sametype-pysubclass' if py else 'sametype-cdef'
+    if len(ours) == 1:
+        return 'pysubclass-vs-unrelated' if py else 'cdef-vs-unrelated'
+    return 'pysubclass-vs-related' if py else 'cdef-base+sub'
 
 
 def arith_role(m):
@@ -293,6 +304,9 @@ def classify(meta, case, exp, got):
                     for k in MRO[d]:
                         vis |= set(meta[k])
             cat = 'cmp:total_ordering' if vis & {'__eq__', '__ne__'} else 'cmp:total_ordering-without-eq-method'
+            # simple sub-lattice: only the base class is decorated and every hierarchy operand is a plain base instance
+            if dec == ['A'] and all(k == 'A' for k in (lk, rk) if k in OURS):
+                cat += '(decorated-class-instances-only)'
         want = '__%s__' % opname
 
         def role(c):
@@ -313,13 +327,19 @@ def classify(meta, case, exp, got):
 
         def role(c):
             return 'end' if c is None else arith_role(c[1])
+    if got[0] == 'ok' and got[1][0] == 'NotImplementedType' and exp[0] == 'exc':
+        return '%s:%s:NotImplemented-returned-as-result-instead-of-TypeError' % (cat, pc)
     if e is None and g is None:
         return '%s:%s:same-calls:%s->%s' % (cat, pc, outclass(exp), outclass(got))
     rule = None
-    if g is not None:
+    if not iscmp and form == 'pow3' and g is None and got[0] == 'exc' and resolve(meta, rk, '__rpow__'):
+        # a 2-argument __rpow__ receives the modulus and raises before it can log
+        rule = 'rpow-called-for-3-arg-pow'
+    if g is not None and rule is None:
         own = resolve(meta, g[2], g[1]) if g[0] in OURS else g[0]
-        if any(p[1:] == g[1:] and p[0] != g[0] for p in gc[:i]):
-            rule = 'same-method-of-base-class-retried-after-NotImplemented'
+        if any(p[1:] == g[1:] for p in gc[:i]):
+            # the same special method (of the same or of a base class) is called again on the same operands
+            rule = 'method-retried-on-same-operands-after-NotImplemented'
         elif not iscmp and form == 'pow3' and role(g) == 'reflected':
             rule = 'rpow-called-for-3-arg-pow'
         elif not iscmp and lk == rk and role(g) == 'reflected':
@@ -336,8 +356,8 @@ def classify(meta, case, exp, got):
 def main(ck):
     tree = cy.Tree('C28')
     rng = ck.rng('gen')
-    ntables = ck.pick(1, 12)
-    fams_per_mod = ck.pick(16, 48)
+    ntables = ck.pick(1, 6)
+    fams_per_mod = ck.pick(15, 40)
     families = []   # (pyx, drv, meta)
     # ---- arithmetic lattice: exhaustive subsets of {op, rop, iop} per operator
     for opname in ARITH:
@@ -352,7 +372,7 @@ def main(ck):
         for total in (False, True):
             if total and not any(m in sub for m in ('__lt__', '__le__', '__gt__', '__ge__')):
                 continue   # functools.total_ordering raises ValueError at class creation: out of scope
-            for t in range(ck.pick(1, 6)):
+            for t in range(ck.pick(1, 4)):
                 fam = 'c%d%st%d' % (si, 'T' if total else 'P', t)
                 families.append(gen_cmp_family(ck.rng('c' + fam), fam, sub, total, t % 2))
     mods = {}
@@ -365,7 +385,9 @@ def main(ck):
         mods[name] = pyx
         refs[name] = py_render(pyx)
         modfams[name] = chunk
+    t0 = time.time()
     d, info = tree.build_sources(mods, subdir='b', ext='.pyx', directives={'c_api_binop_methods': False})
+    ck.cov['build_s'] = round(time.time() - t0, 1)
     total_n = total_distinct = 0
     samples = []
     hist = {}
@@ -373,6 +395,7 @@ def main(ck):
     lattice_seen = set()
     static = {'BinopSlot': 0, 'richcmp': 0}
     nontrivial = set()
+    jobs = []
     for name, inf in info.items():
         if not inf['ok']:
             skipped += 1
@@ -386,7 +409,6 @@ def main(ck):
             f.write(refs[name])
         cases = []
         metas = {}
-        setup = SETUP
         srcs = {}
         for pyx, drv, meta in modfams[name]:
             fam = meta['fam']
@@ -408,9 +430,18 @@ def main(ck):
                     cases.append({'x': 'run(M, %r, %r, %r, %r, %r)' % (fam, opname, form, lk, rk),
                                   't': '%s/%s/%s,%s' % ('cmp' if meta['op'] == 'cmp' else opname, form, lk, rk),
                                   '_k': ['run', fam, opname, form, lk, rk]})
-        setup = SETUP + '\n_SRC.update(%r)\n' % srcs
-        res = diff.run_cases(tree, d, name, cases, ref=refpath, compare={'exc_args': False, 'log': True},
-                             setup=setup, tagdir='run_' + name, timeout=600)
+        jobs.append((name, refpath, cases, metas, SETUP + '\n_SRC.update(%r)\n' % srcs))
+
+    def run_one(job):
+        name, refpath, cases, metas, setup = job
+        return diff.run_cases(tree, d, name, cases, ref=refpath, compare={'exc_args': False, 'log': True},
+                              setup=setup, tagdir='run_' + name, timeout=900, nproc=2)
+
+    t0 = time.time()
+    with ThreadPoolExecutor(8) as ex:
+        results = list(ex.map(run_one, jobs))
+    ck.cov['run_s'] = round(time.time() - t0, 1)
+    for (name, refpath, cases, metas, setup), res in zip(jobs, results):
         total_n += res.n
         total_distinct += res.distinct
         samples.extend(res.samples[:1])
@@ -430,7 +461,7 @@ def main(ck):
             fam = c['case']['_k'][1]
             pyx, drv, meta = metas[fam]
             ck.discrepancy('crash:%s:%s' % (meta['op'], c['case']['_k'][3]), 'crash/hang %s on %s' % (c['kind'], c['case']['x']),
-                           {'module_source': HEADER + pyx, 'ext': '.pyx', 'case': c['case'],
+                           {'module_source': HEADER + pyx, 'ref_source': py_render(HEADER + pyx), 'ext': '.pyx', 'case': c['case'],
                             'setup': SETUP + '\n_SRC.update(%r)\n' % {fam: drv}, 'stderr': c['stderr']})
         for ft in res.fatal:
             ck.inconclusive_if(True, 'driver failed for %s: %s' % (name, str(ft)[-400:]))
